@@ -257,7 +257,7 @@ def run(ctx):
         "used / sent back."
     )
     tasks = list(T.p29_pool(Path("/nonexistent")))
-    configs = ctx.pick(["debug", "cf-1", "cf-2"], list(T.P29_CONFIGS))
+    configs = ctx.pick(["debug", "cf-2"], list(T.P29_CONFIGS))
     dom = ctx.domain(
         "jobs-in-a-fresh-interpreter",
         bound=f"{len(tasks)} tasks ({', '.join(tasks)}) x configurations {configs}; {'one fresh interpreter per case' if ctx.thorough else 'one fresh interpreter per (configuration, task kind python/shell/workflow)'}, PYTHONHASHSEED = 1 + (seed + case index) mod 1000",
